@@ -27,7 +27,7 @@ import (
 func init() {
 	fw.Register(&fw.Check{
 		ID: "C19", Level: "model_checking", Race: true,
-		Rule: "SPX under -race: eight harnesses (server: SETTINGS vs response encoding; RST_STREAM vs running handler vs next request; ping/idle/request timers vs teardown; streamed response vs WINDOW_UPDATE vs disconnect mid-frame; client: two callers vs responses vs Close; timeout vs late response vs Ctx reuse vs SETTINGS; GOAWAY vs new request; upload vs window grants vs reset), each starting after a canonical prelude (handshake, one warm exchange). Every schedule with <= 1 (quick) / <= 2 (thorough) deviations from the run-to-quiescence default is executed on the real goroutines; decision points are all synchronisation operations (channel ops, select, mutex, atomics, transport I/O, goroutine start, timer firing). Oracles per schedule: race detector report (tied to the schedule through its log), pool tracker (double release, release while a handler owns the object), no unrecovered panic, replay of the prefix never diverges. Non-trivial: a schedule with >= 1 decision point; distinct by scenario+schedule.",
+		Rule:   "SPX under -race: eight harnesses (server: SETTINGS vs response encoding; RST_STREAM vs running handler vs next request; ping/idle/request timers vs teardown; streamed response vs WINDOW_UPDATE vs disconnect mid-frame; client: two callers vs responses vs Close; timeout vs late response vs Ctx reuse vs SETTINGS; GOAWAY vs new request; upload vs window grants vs reset), each starting after a canonical prelude (handshake, one warm exchange). Every schedule with <= 1 (quick) / <= 2 (thorough) deviations from the run-to-quiescence default is executed on the real goroutines; decision points are all synchronisation operations (channel ops, select, mutex, atomics, transport I/O, goroutine start, timer firing). Oracles per schedule: race detector report (tied to the schedule through its log), pool tracker (double release, release while a handler owns the object), no unrecovered panic, replay of the prefix never diverges. Non-trivial: a schedule with >= 1 decision point; distinct by scenario+schedule.",
 		Assume: []string{"race detection is happens-before based on the program's own synchronisation (real atomics; mutex, channel, pool, timer and goroutine-start edges annotated by the shims); weak-memory reorderings are not modelled", "fasthttp, bufio and the runtime are trusted; TLS is a pass-through"},
 		Run:    runC19, Replay: replayC19, QuickS: 240, ThoroughS: 1500,
 	})
@@ -375,68 +375,21 @@ func runC19(c *fw.Ctx) {
 		if c.Tier == "thorough" {
 			bound++
 		}
-		schedules, maxPts := 0, 0
-		capped := false
-		var rec func(prefix []int, devs int, owned bool)
-		rec = func(prefix []int, devs int, owned bool) {
-			if capped {
-				return
-			}
-			if c.Expired("C19 " + sc.Name) {
-				capped = true
-				return
-			}
+		capped, schedules, maxPts := spxSearch(c, "C19 "+sc.Name, sc.Name, bound, &item, func(prefix []int) spxOutcome {
 			r := spxExec(sc, prefix)
-			race := r.Race
-			if owned || len(prefix) == 0 && c.Shard == 0 {
-				schedules++
-				if len(r.Points) > maxPts {
-					maxPts = len(r.Points)
-				}
-				key, _ := json.Marshal(prefix)
-				c.Eval(nt(len(r.Points) > 0, append([]byte(sc.Name), key...)))
-				c.AddTraces(1)
-				c.AddTransitions(int64(r.Steps))
-				c.State(fw.Hash(sc.Name, r.Obs))
-				c.Outcome(sc.Name + ":" + fmt.Sprint(fw.Hash(r.Obs)%1000))
-			}
+			out := spxOutcome{Points: r.Points, Steps: r.Steps, Obs: r.Obs}
 			rep := map[string]any{"family": "spx", "scenario": sc.Name, "prefix": prefix}
-			if race != "" {
-				for _, one := range splitRaces(race) {
-					c.Violate(fw.Violation{Rule: "data-race", Shape: fw.RaceShape(one), Detail: trimReport(one), Replay: rep})
+			if r.Race != "" {
+				for _, one := range splitRaces(r.Race) {
+					out.Viol = append(out.Viol, fw.Violation{Rule: "data-race", Shape: fw.RaceShape(one), Detail: trimReport(one), Replay: rep})
 				}
 			}
 			for _, p := range r.Problems {
 				parts := strings.SplitN(p, "\x00", 3)
-				c.Violate(fw.Violation{Rule: parts[0], Shape: parts[1], Detail: parts[2], Replay: rep})
+				out.Viol = append(out.Viol, fw.Violation{Rule: parts[0], Shape: parts[1], Detail: parts[2], Replay: rep})
 			}
-			if devs >= bound {
-				return
-			}
-			for i := len(prefix); i < len(r.Points); i++ {
-				for alt := 1; alt < r.Points[i].N; alt++ {
-					own := owned
-					if len(prefix) == 0 {
-						// level-1 subtrees are the unit of sharding
-						item++
-						own = c.Mine(item)
-						if !own {
-							continue
-						}
-					}
-					np := make([]int, i+1)
-					for j := 0; j < i; j++ {
-						np[j] = r.Points[j].Chosen
-					}
-					np[i] = alt
-					rec(np, devs+1, own)
-					if capped {
-						return
-					}
-				}
-			}
-		}
-		rec(nil, 0, false)
+			return out
+		})
 		if capped {
 			c.Bound["capped:"+sc.Name] = fmt.Sprintf("time budget reached after %d schedules of this shard", schedules)
 		} else {
